@@ -1239,9 +1239,18 @@ class Workspace(AbstractContextManager):
         """
         if isinstance(entity, (Group, Data, ObjectBase)):
             # identifiers are unique across groups, objects and data
-            for referents in (self._groups, self._data, self._objects):
+            for referents, rtype in (
+                (self._groups, "Groups"),
+                (self._data, "Data"),
+                (self._objects, "Objects"),
+            ):
                 other = referents.get(entity.uid, None)
-                if other is not None and other() not in (None, entity):
+                if other is None:
+                    continue
+                if other() is None:
+                    # identifier of a collected entity: drop its stale node first
+                    self.remove_none_referents(referents, rtype)
+                elif other() is not entity:
                     raise RuntimeError(f"Key '{entity.uid}' already used.")
 
         if isinstance(entity, EntityType):
